@@ -446,3 +446,68 @@ Example C08_two_reloads_after_a_refused_attempt_nonvacuous :
     attempt Sigusr1 2 [] (mkcfg 2 [ELog 1 50 true; ELog 3 7 false] [AEph 1]) g1 = (RErr, g2) /\
     cfg_valid [] (mkcfg 3 [] [AEph 1]) = true /\ cfg_valid [] (mkcfg 4 [EOn 1] [AEph 1]) = true.
 Proof. exact two_reloads_witness. Qed.
+
+(* ---- 12. a rejected htpasswd file stays rejected; a rejected configuration, retried, is rejected again ----
+   "The outcome of loading a configuration depends only on that configuration and the environment, not on earlier
+   failed attempts", for the state named in the anchors (basicauth.htpasswords).  FULL, every state a history
+   reaches, every file: GetHtpasswdMatcher asked again with the file untouched gives the SAME answer (error or
+   the password the user's matcher accepts); a file with a damaged line is rejected and leaves the table exactly
+   as it was - the file is parsed into a temporary map and stored only after a complete parse, so not even the
+   entries in front of the damaged line are remembered ([h_users] = the entries before the damaged line,
+   [h_after] = those behind it). *)
+Theorem C08_rejected_htpasswd_stays_rejected :
+  forall e g f u r g' o,
+  g_htlock g = false -> cache_ok g -> get_matcher e g f u = (r, g', o) ->
+  (exists g'', get_matcher e g' f u = (r, g'', o) /\ cache_ok g'') /\
+  (h_present (env_get e f) = true -> h_bad (env_get e f) = true ->
+   r = RErr /\ o = None /\ g_htcache g' = g_htcache g /\ g_htlock g' = false).
+Proof. exact rejected_htpasswd_stays_rejected. Qed.
+Print Assumptions C08_rejected_htpasswd_stays_rejected.
+
+(* FULL, every mode, every kind of failure, every well-formed state: after a rejected attempt EVERY attempt - in
+   any mode, under any step number, of any configuration, in particular the SAME configuration retried with the
+   files untouched (load, validate, reload, SIGUSR1) - has exactly the outcome it has from the state before the
+   rejected attempt, and the same effect on everything but the cache, the roller map and the worker list.  With
+   7 (from [g0]) that outcome is the one of a fresh process.  On the implementation side the harness attempts the
+   same configuration two and three times with the files untouched and holds the result and the class of the error
+   message of every attempt on an invalid configuration against those of the same attempt in a process that did
+   not see the earlier failures ([fresh_ok] in [spec_hist]). *)
+Theorem C08_retry_of_a_rejected_configuration :
+  forall m step e c g r g',
+  wf g -> attempt m step e c g = (r, g') -> r <> ROk ->
+  same_but_leaks g g' /\
+  forall m2 step2 v r2 ga, attempt m2 step2 e v g = (r2, ga) ->
+  exists gb, attempt m2 step2 e v g' = (r2, gb) /\ same_but_leaks ga gb.
+Proof. exact retry_after_rejected. Qed.
+Print Assumptions C08_retry_of_a_rejected_configuration.
+
+Example C08_rejected_htpasswd_stays_rejected_nonvacuous :
+  let e := [(2, ht_damaged [(1, 1)] [(2, 1)])] in
+  let c := mkcfg 1 [EOn 1; EAuth 2 1] [AEph 1] in
+  exists g1 g2 g3 g4,
+    attempt Load 1 e c g0 = (RErr, g1) /\ attempt Load 2 e c g1 = (RErr, g2) /\
+    attempt Validate 3 e c g2 = (RErr, g3) /\ g_htcache g3 = [] /\
+    attempt Load 4 e (mkcfg 2 [EAuth 2 2] [AEph 1]) g3 = (RErr, g4) /\ wf g0.
+Proof. exact rejected_stays_rejected_witness. Qed.
+
+(* ... whereas GetHtpasswdMatcher with the table entry stored BEFORE the file is parsed and the parser filling the
+   entry's map in place ([get_matcher_early], a seeded "no temporary map" tidy-up) - the same function on every
+   file without a damaged line - remembers the file it rejected: the second attempt with the file untouched is
+   ACCEPTED for a user in front of the damaged line although no fresh process accepts that configuration, and
+   fails with "user not found" instead of the parse error for a user behind it. *)
+Theorem C08_htpasswd_stored_before_parse_same_on_wellformed_files :
+  forall e g f u, h_bad (env_get e f) = false -> get_matcher_early e g f u = get_matcher e g f u.
+Proof. exact early_cache_same_on_wellformed. Qed.
+Print Assumptions C08_htpasswd_stored_before_parse_same_on_wellformed_files.
+
+Theorem C08_htpasswd_stored_before_parse_refuted :
+  exists e f u u2 g1,
+    eff_valid e (EAuth f u) = false /\
+    get_matcher_early e g0 f u = (RErr, g1, None) /\
+    get_matcher_early e g1 f u = (ROk, g1, Some 1) /\
+    get_matcher_early e g1 f u2 = (RErr, g1, None) /\ assoc u2 (h_after (env_get e f)) = Some 1 /\
+    ~ cache_ok g1 /\
+    (exists g1', get_matcher e g0 f u = (RErr, g1', None) /\ fst (fst (get_matcher e g1' f u)) = RErr /\
+                 g_htcache g1' = []).
+Proof. exact early_cache_refuted. Qed.
+Print Assumptions C08_htpasswd_stored_before_parse_refuted.
